@@ -40,7 +40,8 @@ class SympySimulator(Backend):
             return_statevector (bool): Option to return the statevector as well,
                 if available.
             initial_statevector (array/matrix or sympy.physics.quantum.Qubit): A
-                valid statevector in the format supported by the target backend.
+                valid statevector in the format supported by the target backend
+                (numpy or sympy matrix, or Qubit).
             desired_meas_result (str) : Not currently implemented, will raise an error
             save_mid_circuit_meas (bool): Not currently implemented, will raise an error
 
@@ -51,7 +52,7 @@ class SympySimulator(Backend):
                 by the user (if not, set to None).
         """
 
-        from sympy import simplify
+        from sympy import simplify, MatrixBase
         from sympy.physics.quantum import qapply
         from sympy.physics.quantum.qubit import Qubit, matrix_to_qubit, \
             qubit_to_matrix, measure_all
@@ -70,7 +71,10 @@ class SympySimulator(Backend):
             python_statevector = Qubit("0"*(source_circuit.width))
         elif isinstance(initial_statevector, Qubit):
             python_statevector = initial_statevector
-        elif isinstance(initial_statevector, (np.ndarray, np.matrix)):
+        elif isinstance(initial_statevector, (np.ndarray, np.matrix, MatrixBase)):
+            # A 1D array holds the amplitudes of a ket, that is a column vector
+            if isinstance(initial_statevector, np.ndarray) and initial_statevector.ndim == 1:
+                initial_statevector = initial_statevector.reshape(-1, 1)
             python_statevector = matrix_to_qubit(initial_statevector)
         else:
             raise ValueError(f"The {type(initial_statevector)} type for initial_statevector is not supported.")
